@@ -13,6 +13,9 @@ use crate::{
     handler::StreamHandler,
 };
 
+#[cfg(feature = "verif")]
+use crate::verif::futures_timer;
+
 mod payload;
 pub(crate) use payload::Payload;
 
